@@ -62,6 +62,12 @@ SpineTypes(allTypes, types) ==
   ELSE LET hs == SelectSeq(stages[h], LAMBDA n : n.cell.t \in (IF allTypes THEN KnownHeaders ELSE types))
        IN [i \in 1..Len(hs) |-> hs[i].cell.t]
 
+(* ------------- the signatures governing every note, in row-major order (C08) ------------- *)
+SigTextAt(p) == IF p = NoPtr THEN <<>> ELSE At(p).cell.t
+NotesGoverning == LET ptrs == Flat([s \in 1..Len(stages) |-> SelectSeq([i \in 1..Len(stages[s]) |-> <<s, i>>],
+                                         LAMBDA q : s > 1 /\ stages[q[1]][q[2]].cell.k = "note")])
+                  IN [j \in 1..Len(ptrs) |-> LET n == At(ptrs[j]) IN <<SigTextAt(n.sig.clef), SigTextAt(n.sig.key), SigTextAt(n.sig.time)>>]
+
 (* --------------------- page bounding boxes (Document.page_bounding_boxes) --------------------- *)
 \* A *xywh-<page>:x,y,w,h interpretation (in a spine of any type) contributes a box to its page.  The index keeps, per page
 \* in order of first appearance, the union of its boxes and the measure span: from = measures open when the page first
